@@ -118,8 +118,7 @@ Proof.
 Qed.
 
 Lemma clustered_rows1_muts data clusters t :
-  map l_mut (flat_map (fun p => let cid := nth (fst p) data 0%nat in
-                                map (fun m => mkL m (snd p) (Some cid)) (cluster_muts clusters cid)) (labels t))
+  map l_mut (flat_map (fun p => map (fun m => mkL m (snd p) (Some (nth (fst p) data 0%nat))) (cluster_muts clusters (nth (fst p) data 0%nat))) (labels t))
   = flat_map (cluster_muts clusters) (map (fun i => nth i data 0%nat) (tree_points t)).
 Proof.
   rewrite <- labels_fst. induction (labels t) as [|p l IH]; cbn [flat_map map]; [reflexivity|].
@@ -155,7 +154,7 @@ Proof.
       * destruct (memn m (map l_mut rows1)) eqn:E; [left; now apply memn_in|]. right.
         apply in_map_iff in H as [r [<- Hr]]. apply in_map_iff. exists r. split; [reflexivity|].
         apply filter_In. split; [exact Hr| now rewrite E].
-      * left. rewrite Hseen. apply in_flat_map. exists (nth i data 0%nat). split; [now apply in_map| now apply in_cluster_muts].
+      * left. rewrite Hseen. apply in_flat_map. exists (nth i data 0%nat). split; [apply (in_map (fun i => nth i data 0%nat)), Hi| now apply in_cluster_muts].
 Qed.
 
 (* every cluster has one clone *)
@@ -164,21 +163,19 @@ Lemma clustered_share data clusters t : wf_tree data t -> wf_clusters clusters -
   l_cluster r1 = l_cluster r2 -> l_clone r1 = l_clone r2.
 Proof.
   intros (Hd & Hp & Hb) Hc.
-  assert (Hrow1 : forall r, In r (flat_map (fun p => let cid := nth (fst p) data 0%nat in
-              map (fun m => mkL m (snd p) (Some cid)) (cluster_muts clusters cid)) (labels t)) ->
+  assert (Hrow1 : forall r, In r (flat_map (fun p => map (fun m => mkL m (snd p) (Some (nth (fst p) data 0%nat))) (cluster_muts clusters (nth (fst p) data 0%nat))) (labels t)) ->
             exists i cl, In (i, cl) (labels t) /\ l_clone r = cl /\ l_cluster r = Some (nth i data 0%nat)
                          /\ In (l_mut r, nth i data 0%nat) clusters).
   { intros r Hr. apply in_flat_map in Hr as [[i cl] [Hl Hr]]. cbn [fst snd] in Hr.
     apply in_map_iff in Hr as [m [<- Hm]]. exists i, cl. cbn [l_clone l_cluster l_mut].
     repeat split; try assumption. now apply in_cluster_muts. }
   assert (Hrow2 : forall r, In r (map (fun r => mkL (fst r) (-1) (Some (snd r)))
-              (filter (fun r => negb (memn (fst r) (map l_mut (flat_map (fun p => let cid := nth (fst p) data 0%nat in
-                 map (fun m => mkL m (snd p) (Some cid)) (cluster_muts clusters cid)) (labels t))))) clusters)) ->
+              (filter (fun r => negb (memn (fst r) (map l_mut (flat_map (fun p => map (fun m => mkL m (snd p) (Some (nth (fst p) data 0%nat))) (cluster_muts clusters (nth (fst p) data 0%nat))) (labels t))))) clusters)) ->
             l_clone r = -1 /\ exists c, l_cluster r = Some c /\ In (l_mut r, c) clusters
               /\ ~ In (l_mut r) (flat_map (cluster_muts clusters) (map (fun i => nth i data 0%nat) (tree_points t)))).
   { intros r Hr. apply in_map_iff in Hr as [[m c] [<- Hm]]. apply filter_In in Hm as [Hm Hn]. cbn [fst snd] in *.
     split; [reflexivity|]. exists c. split; [reflexivity|]. split; [exact Hm|].
-    apply negb_true_iff in Hn. rewrite clustered_rows1_muts in Hn. intros Hin. apply memn_in in Hin. congruence. }
+    apply negb_true_iff in Hn. rewrite clustered_rows1_muts in Hn. cbn [l_mut]. intros Hin. apply memn_in in Hin. congruence. }
   assert (Hlab : forall i cl, In (i, cl) (labels t) -> In i (tree_points t))
     by (intros i cl H; rewrite <- labels_fst; apply in_map_iff; exists (i, cl); split; [reflexivity| exact H]).
   intros r1 r2 H1 H2 Hcl. unfold labels_clustered in H1, H2.
@@ -189,10 +186,10 @@ Proof.
     subst j. apply (nodup_fst_functional (labels t) i); [rewrite labels_fst; exact Hp| exact Hl| exact Hl'].
   - exfalso. apply Hrow1 in H1 as (i & cl & Hl & _ & Hc1 & _). apply Hrow2 in H2 as (_ & c & Hc2 & Hin & Hnot).
     rewrite Hc1, Hc2 in Hcl. injection Hcl as <-. apply Hnot. apply in_flat_map.
-    exists (nth i data 0%nat). split; [apply in_map; eapply Hlab; eassumption| now apply in_cluster_muts].
+    exists (nth i data 0%nat). split; [apply (in_map (fun i => nth i data 0%nat)); eapply Hlab; eassumption| now apply in_cluster_muts].
   - exfalso. apply Hrow1 in H2 as (i & cl & Hl & _ & Hc1 & _). apply Hrow2 in H1 as (_ & c & Hc2 & Hin & Hnot).
     rewrite Hc1, Hc2 in Hcl. injection Hcl as ->. apply Hnot. apply in_flat_map.
-    exists (nth i data 0%nat). split; [apply in_map; eapply Hlab; eassumption| now apply in_cluster_muts].
+    exists (nth i data 0%nat). split; [apply (in_map (fun i => nth i data 0%nat)); eapply Hlab; eassumption| now apply in_cluster_muts].
   - apply Hrow2 in H1 as [-> _]. apply Hrow2 in H2 as [-> _]. reflexivity.
 Qed.
 
@@ -263,12 +260,11 @@ Proof.
   rewrite <- (map_id samples) in Hs, Hin. rewrite (count_one (fun x => x) samples s Hs Hin). reflexivity.
 Qed.
 Lemma table_muts d samples lt row : In row (clone_table d samples lt) ->
-  exists r j, In r lt /\ nth_error samples j = Some (c_sample row) /\ row = clone_row d r (j, c_sample row).
+  exists r j s, In r lt /\ nth_error samples j = Some s /\ row = clone_row d r (j, s).
 Proof.
   unfold clone_table. intros H. apply in_flat_map in H as [r [Hr H]]. apply in_map_iff in H as [[j s] [<- Hj]].
   apply in_index_from in Hj as [_ Hj]. rewrite Nat.sub_0_r in Hj.
-  destruct (clone_row_fields d r (j, s)) as (_ & _ & _ & E). cbn [snd] in E. rewrite E.
-  exists r, j. repeat split; assumption.
+  exists r, j, s. repeat split; assumption.
 Qed.
 
 (* ---- values ---- *)
@@ -293,9 +289,69 @@ Theorem values_fixed data clusters samples (vals : vals_t) t row :
                  /\ nth_error samples j = Some (c_sample row)
                  /\ c_ccf row = nth j (fst (vals l)) 0%Qc /\ c_prev row = nth j (snd (vals l)) 0%Qc.
 Proof.
-  unfold result_fixed. cbn [fst]. intros H. apply table_muts in H as (r & j & Hr & Hj & ->).
+  unfold result_fixed. cbn [fst]. intros H. apply table_muts in H as (r & j & s & Hr & Hj & ->).
   destruct (labels_table_clone data clusters t r Hr) as [E|(l & Hl & E)]; unfold clone_row, ccf_dicts_fixed; rewrite E.
-  - left. rewrite lookup_minus_one. cbn [c_clone c_ccf c_prev]. repeat split. exact E.
+  - left. rewrite lookup_minus_one. cbn [c_clone c_ccf c_prev]. repeat split.
   - right. rewrite (lookup_fixed vals _ l Hl). exists l, j. cbn [c_clone c_ccf c_prev c_sample fst snd].
-    repeat split; try assumption. reflexivity.
+    repeat split; try assumption.
+Qed.
+
+(* whatever the pinned code writes is what the repaired code writes *)
+Lemma result_some data clusters samples vals t x :
+  result data clusters samples vals t = Some x -> x = result_fixed data clusters samples vals t.
+Proof.
+  unfold result, ccf_dicts, result_fixed, ccf_dicts_fixed. destruct (convert_ok t); [|discriminate].
+  intros H. now injection H as <-.
+Qed.
+
+Theorem each_once_unclustered data samples vals t : wf_tree data t -> NoDup samples ->
+  let tb := fst (result_fixed data None samples vals t) in
+  (forall m s, In m data -> In s samples -> count_rows m s tb = 1%nat)
+  /\ (forall row, In row tb -> In (c_mut row) data /\ In (c_sample row) samples).
+Proof.
+  intros Hw Hs tb. destruct (unclustered_muts data t Hw) as [Hn Hm]. split.
+  - intros m s Hmd Hss. apply each_once_general; [exact Hn| exact Hs| now apply Hm| exact Hss].
+  - intros row Hrow. unfold tb, result_fixed in Hrow. cbn [fst labels_table] in Hrow.
+    apply table_muts in Hrow as (r & j & s & Hr & Hj & ->).
+    destruct (clone_row_fields (ccf_dicts_fixed vals t) r (j, s)) as (E1 & _ & _ & E4). rewrite E1, E4. cbn [snd]. split.
+    + apply Hm. now apply in_map.
+    + eapply nth_error_In, Hj.
+Qed.
+
+Theorem each_once_clustered data clusters samples vals t : wf_tree data t -> wf_clusters clusters -> NoDup samples ->
+  let tb := fst (result_fixed data (Some clusters) samples vals t) in
+  (forall m s, In m (map fst clusters) -> In s samples -> count_rows m s tb = 1%nat)
+  /\ (forall row, In row tb -> In (c_mut row) (map fst clusters) /\ In (c_sample row) samples).
+Proof.
+  intros Hw Hc Hs tb. destruct (clustered_muts data clusters t Hw Hc) as [Hn Hm]. split.
+  - intros m s Hmd Hss. apply each_once_general; [exact Hn| exact Hs| apply Hm; left; exact Hmd| exact Hss].
+  - intros row Hrow. unfold tb, result_fixed in Hrow. cbn [fst labels_table] in Hrow.
+    apply table_muts in Hrow as (r & j & s & Hr & Hj & ->).
+    destruct (clone_row_fields (ccf_dicts_fixed vals t) r (j, s)) as (E1 & _ & _ & E4). rewrite E1, E4. cbn [snd]. split.
+    + assert (Hin : In (l_mut r) (map l_mut (labels_clustered data clusters t))) by now apply in_map.
+      apply Hm in Hin as [Hin|[i [_ Hin]]]; [exact Hin|].
+      apply in_map_iff. exists (l_mut r, nth i data 0%nat). split; [reflexivity| exact Hin].
+    + eapply nth_error_In, Hj.
+Qed.
+
+Theorem clone_ids_in_newick data clusters samples vals t row :
+  In row (fst (result_fixed data clusters samples vals t)) ->
+  c_clone row = -1 \/ exists l, c_clone row = Z.of_nat l /\ In (Some l) (nw_labels (snd (result_fixed data clusters samples vals t))).
+Proof.
+  unfold result_fixed. cbn [fst snd]. intros H. apply table_muts in H as (r & j & s & Hr & Hj & ->).
+  destruct (clone_row_fields (ccf_dicts_fixed vals t) r (j, s)) as (_ & E2 & _). rewrite E2.
+  destruct (labels_table_clone data clusters t r Hr) as [E|(l & Hl & E)]; [left; exact E|].
+  right. exists l. split; [exact E|]. rewrite nw_labels_newick. right. now apply in_map.
+Qed.
+
+Theorem cluster_shares_clone data clusters samples vals t : wf_tree data t -> wf_clusters clusters ->
+  forall r1 r2, In r1 (fst (result_fixed data (Some clusters) samples vals t)) ->
+                In r2 (fst (result_fixed data (Some clusters) samples vals t)) ->
+                c_cluster r1 = c_cluster r2 -> c_clone r1 = c_clone r2.
+Proof.
+  intros Hw Hc r1 r2 H1 H2. unfold result_fixed in H1, H2. cbn [fst labels_table] in H1, H2.
+  apply table_muts in H1 as (a & j1 & s1 & Ha & _ & ->). apply table_muts in H2 as (b & j2 & s2 & Hb & _ & ->).
+  destruct (clone_row_fields (ccf_dicts_fixed vals t) a (j1, s1)) as (_ & A2 & A3 & _).
+  destruct (clone_row_fields (ccf_dicts_fixed vals t) b (j2, s2)) as (_ & B2 & B3 & _).
+  rewrite A2, A3, B2, B3. now apply (clustered_share data clusters t Hw Hc).
 Qed.
